@@ -1045,7 +1045,8 @@ def chain_task(task, tr):
             # most infeasible branches are local facts (argument validation, the assert in tune()): try few hypotheses first
             inner = {n for n in d.topo([run.pcs[i]]) if d.ops[n] in ('add', 'mul', 'div', 'uf', 'ite', 'ipow')}
             related = [c for c in run.pcs[:i] if inner & set(d.topo([c]))]
-            stages = ([(related, 8)] if len(related) < i else []) + [(run.pcs[:i], 25)]
+            # (the last, long attempt is only reached when everything else timed out, e.g. on a heavily loaded machine)
+            stages = ([(related, 8)] if len(related) < i else []) + [(run.pcs[:i], 25), ([], 10), (run.pcs[:i], 120)]
             for prefix, to in stages:
                 hy = run.dom + prefix + [neg] + ground_axioms(d, prefix + [run.pcs[i]], monotone=True)
                 st, r, _ = prove(d, hy, d.FALSE, timeout=to, tr=tr, label='sibling infeasible', parallel=True)
